@@ -1,5 +1,6 @@
 import Beetswap.Proofs.Handler
 import Beetswap.Proofs.ClientView
+import Beetswap.Proofs.Net
 /-!
 # C14 — A wantlist handed to a connection is delivered whole or reported failed (partial)
 
@@ -92,6 +93,27 @@ theorem send_on_own_connection (w : Wantlist) (now : Nat) (ps : PeerSt) (pref : 
 
 end
 
+/-! ### Consequence for two connected nodes (`Model/Net`, see `Props/C02` for the setting) -/
+section
+open Std Beetswap.Net Beetswap.Wl Beetswap.Proofs.Net
+/-- C14 (records agree): whenever nothing is in flight and nothing is left to do, the serving
+side's record of the requester's wants is contained in the requester's live wants. -/
+theorem records_agree (store : KMap Nat) (s : Net.State) (h : Reachable store s)
+    (hq : quiescent s = true) (set : KSet) (hs : s.b.server.wl[0]? = some set) (k : Nat) (hk : k ∈ set) :
+    k ∈ wants s :=
+  Proofs.Net.records_agree store s h hq set hs k hk
+
+/-- C14 (records agree, after a refresh): … and then the serving side's record equals the
+requester's live wants (which are all for blocks the server does not hold). -/
+theorem records_agree_after_refresh (store : KMap Nat) (s : Net.State) (h : Reachable store s)
+    (hq : quiescent s = true) (hcap : s.a.client.nextQuery ≤ Server.maxWantlistEntries) (n : Nat)
+    (hn : quiescent (settle n (step s .refresh)) = true) (k : Nat) :
+    let s' := settle n (step s .refresh)
+    (k ∈ wants s' ↔ ∃ set, s'.b.server.wl[0]? = some set ∧ k ∈ set) :=
+  Proofs.Net.records_agree_after_refresh store s h hq hcap n hn k
+
+end
+
 /-- Non-vacuity: a complete fault-free transmission obeys the obligations and is accepted. -/
 def okEnv : Env := { timerFired := false, pollReady := .ok, startSendOk := true, flush := .ok }
 
@@ -99,7 +121,7 @@ def sampleRun : List In :=
   [.sendWantlist 1, .poll okEnv, .poll okEnv, .setStream 7, .poll okEnv, .poll okEnv, .sendWantlist 2]
 
 example : Obeys {} sampleRun := by
-  simp [Obeys, sampleRun, okEnv, step, sendWantlist, setStream, changeState, poll, pollFuel, dropSink]
+  simp [Obeys, sampleRun, okEnv, step, sendWantlist, setStream, changeState, poll, pollFuel]
 
 example : (specRun {} (traceOf {} sampleRun)).map (·.phase) = some (.accepted 2) := by decide
 
